@@ -1359,6 +1359,20 @@ fn ensure_allocator_state_table_and_trim(
     Ok(())
 }
 
+// Makes the commits acknowledged with Durability::None durable, with a plain commit that saves no
+// allocator state: the file stays marked for recovery, and the next open rebuilds it
+fn persist_non_durable_commits(
+    transaction_tracker: &Arc<TransactionTracker>,
+    mem: &Arc<TransactionalMemory>,
+) -> Result<(), Error> {
+    let mut tx =
+        begin_write_with_allocation_policy(transaction_tracker, mem, AllocationPolicy::Default)?;
+    tx.disable_post_commit_free();
+    tx.commit()?;
+
+    Ok(())
+}
+
 // Closes the database: persists the allocator state table, so that the next open does not
 // require a repair, and closes the storage backend. Runs exactly once, when the database
 // closes: from Database::drop, or from the end of the write transaction that was live at
@@ -1374,6 +1388,16 @@ fn close_database(transaction_tracker: &Arc<TransactionTracker>, mem: &Arc<Trans
     {
         #[cfg(feature = "logging")]
         warn!("Failed to write allocator state table. Repair may be required at restart.");
+    }
+    // The commit above is also what makes pending Durability::None commits durable. Without it
+    // they still have to survive a clean close
+    if !crate::panicking()
+        && mem.needs_repair()
+        && mem.pending_non_durable_commit()
+        && persist_non_durable_commits(transaction_tracker, mem).is_err()
+    {
+        #[cfg(feature = "logging")]
+        warn!("Failed to persist non-durable commits while closing.");
     }
 
     if mem.close().is_err() {
